@@ -51,7 +51,8 @@ CHECKS = {
             "transformers sharing one table with a distinct row per (id, step); the spec's required row <<id_t, pos_t>> is "
             "entered directly into a second net; TLC compares bus voltages and transformer flows of the two solved nets and "
             "checks that the lookup did not write into net.trafo.",
-            "2W transformers only; table rows distinct by construction; tolerances 3e-5 abs + 20 ppm",
+            "2W family: row entered directly; 3W family (tap side hv/mv/lv, tap at star point, Ratio/Symmetrical/Ideal, shared ids): "
+            "self-consistency with the non-tabular path (own row = own linear tap model) and direct entry for terminal taps; tolerances 3e-5 abs + 20 ppm",
             "TLC-enumerated configurations; differential power flow compared by TLC", "§4 C31"),
     "C22": ("model_checking",
             "NetEditDef.tla is a relational model of the net (rows, typed references with cascade kinds, result rows) with the "
